@@ -111,13 +111,17 @@ def related_numbers_stmt():
     return st.builds(mk, weighted((1, st.sampled_from(ops3)), (2, st.sampled_from(ops2))), base, d, d, d, enc)
 
 
+# how the number of a CLTV / CSV operand is encoded: minimally, or padded with zero bytes (same value)
+NUM_FORMS = st.sampled_from(["min"] * 5 + ["pad1", "pad2", "to5"])
+
+
 def locktime_stmt():
     """CLTV / CSV with an operand related to the transaction's own lock time / input sequence"""
     kinds = ["eq", "+1", "-1", "bit16", "bit17", "bit21", "bit22", "bit23", "bit31", "mask16", "era", "neg", "zero", "big5"]
-    return st.builds(lambda which, kind, enc, drop: [["ctxnum", "locktime" if which == V.OP_CHECKLOCKTIMEVERIFY else "sequence", kind, enc],
-                                                     ["op", which]] + ([["op", V.OP_DROP]] if drop else []),
+    return st.builds(lambda which, kind, enc, drop, form: [["ctxnum", "locktime" if which == V.OP_CHECKLOCKTIMEVERIFY else "sequence", kind, enc, form],
+                                                           ["op", which]] + ([["op", V.OP_DROP]] if drop else []),
                      st.sampled_from([V.OP_CHECKLOCKTIMEVERIFY, V.OP_CHECKSEQUENCEVERIFY]), st.sampled_from(kinds),
-                     st.sampled_from(["min", "min", "min", "p1"]), st.booleans())
+                     st.sampled_from(["min", "min", "min", "p1"]), st.booleans(), NUM_FORMS)
 
 
 def pick_roll_stmt():
@@ -376,8 +380,8 @@ def lock_templates():
         lock = [["key", ka, "c"], ["op", V.OP_CHECKSIGVERIFY], ["n", 1, "opn"], S]
         return lock, [["sig", ka, hta, va, 0]]
 
-    def cltv(k, n, ht, which, kind):
-        num = ["n", n, "min"] if kind is None else ["ctxnum", "locktime" if which == V.OP_CHECKLOCKTIMEVERIFY else "sequence", kind, "min"]
+    def cltv(k, n, ht, which, kind, form):
+        num = ["n", n, "min"] if kind is None else ["ctxnum", "locktime" if which == V.OP_CHECKLOCKTIMEVERIFY else "sequence", kind, "min", form]
         lock = [num, ["op", which], ["op", V.OP_DROP], ["key", k, "c"], ["op", V.OP_CHECKSIG]]
         return lock, [["sig", k, ht, "ok", 0]]
 
@@ -407,7 +411,7 @@ def lock_templates():
                   st.lists(st.sampled_from(["empty", "empty", "wrongkey", "wrongmsg", "highs"]), min_size=1, max_size=2), STD_HT,
                   st.booleans(), st.sampled_from(["c", "c", "u"])),
         st.builds(cltv, ks, st.sampled_from(INTERESTING_NUMS), STD_HT, st.sampled_from([V.OP_CHECKLOCKTIMEVERIFY, V.OP_CHECKSEQUENCEVERIFY]),
-                  st.sampled_from([None, "eq", "eq", "+1", "-1", "bit16", "bit21", "bit22", "bit31", "mask16", "era"])),
+                  st.sampled_from([None, "eq", "eq", "+1", "-1", "bit16", "bit21", "bit22", "bit31", "mask16", "era"]), NUM_FORMS),
         st.builds(ifsig, ks, STD_HT, st.sampled_from([["n", 1, "opn"], ["n", 0, "opn"], ["d", "02", "min"], ["d", "0100", "min"], ["d", "00", "min"]])),
     )
 
